@@ -1,12 +1,12 @@
 """C15 - solver and preconditioner objects are reusable; calls do not leak state."""
 import json, re
 
-NKINDS = 10
+NKINDS = 11
 
 def run(c):
     th = c.thorough()
-    c.rule = ("model: all call histories of length <= 3 (4 thorough) over 10 call kinds on an object with persistent work registers "
-              "and the LGMRES outer-vector ring (K <= 2..3, <= 3 restarts per call); code: every history TLC emits (1000 / 10000) replayed "
+    c.rule = ("model: all call histories of length <= 3 (4 thorough) over 11 call kinds on an object with persistent work registers "
+              "and the LGMRES outer-vector ring (K <= 2..3, <= 3 restarts per call); code: every history TLC emits (1331 / 14641) replayed "
               "on one real object per kind (8 Krylov solvers, preonly, two amg, as_preconditioner, skyline_lu, make_solver) and call by "
               "call on fresh objects, bitwise; op streams of a stride of the histories through the NoLeak monitor. "
               "non-trivial = a call at position >= 2 of a history; distinct by (object, history prefix)")
